@@ -210,11 +210,20 @@ void ScriptVM::loadTop(EventSystem& eventSystem, Listener* listener)
     const char* pVarName = varName.c_str();
 #endif
 
-    if (!eventName || !executeSetter(eventSystem, listener, eventName))
+    try
     {
-        // just set the variable
-        ScriptVariable& pTop = m_Stack.GetTop();
-        listener->Vars()->SetVariable(variable, std::move(pTop));
+        if (!eventName || !executeSetter(eventSystem, listener, eventName))
+        {
+            // just set the variable
+            ScriptVariable& pTop = m_Stack.GetTop();
+            listener->Vars()->SetVariable(variable, std::move(pTop));
+        }
+    }
+    catch (...)
+    {
+        // the assigned value is consumed on the error path too
+        if constexpr (!noTop) m_Stack.Pop();
+        throw;
     }
 
     if constexpr (!noTop) m_Stack.Pop();
@@ -1147,6 +1156,7 @@ bool ScriptVM::Process(ScriptContext& context, uinttime_t interruptTime)
         {
             if (!GetScriptClass()->GetSelf())
             {
+                skipField();
                 throw ScriptException("self is NULL");
             }
 
@@ -1205,6 +1215,8 @@ bool ScriptVM::Process(ScriptContext& context, uinttime_t interruptTime)
 
         case OP_STORE_FIELD_REF:
         {
+            // whether the two operands were consumed when an error is raised
+            bool operandsRead = false;
             try
             {
                 Listener* listener = m_Stack.GetTop().listenerValue();
@@ -1213,10 +1225,13 @@ bool ScriptVM::Process(ScriptContext& context, uinttime_t interruptTime)
                 {
                     const op_name_t fieldName = ReadGetOpcodeValue<op_name_t>();
                     skipField();
+                    operandsRead = true;
                     throw ScriptVMErrors::NullListenerField(fieldName);
                 }
                 else
                 {
+                    // storeTop reads the operands first
+                    operandsRead = true;
                     ScriptVariable* const listenerVar = storeTop<true>(eventSystem, listener);
 
                     if (listenerVar)
@@ -1228,6 +1243,9 @@ bool ScriptVM::Process(ScriptContext& context, uinttime_t interruptTime)
             }
             catch (...)
             {
+                if (!operandsRead) {
+                    skipField();
+                }
                 ScriptVariable* const pTop = m_Stack.GetTopPtr();
                 pTop->setRefValue(pTop);
                 throw;
@@ -1236,6 +1254,9 @@ bool ScriptVM::Process(ScriptContext& context, uinttime_t interruptTime)
         }
 
         case OP_STORE_FIELD:
+        {
+            // whether the two operands were consumed when an error is raised
+            bool operandsRead = false;
             try
             {
                 Listener* listener = m_Stack.GetTop().listenerValue();
@@ -1246,16 +1267,21 @@ bool ScriptVM::Process(ScriptContext& context, uinttime_t interruptTime)
                 }
                 else
                 {
+                    // storeTop reads the operands first
+                    operandsRead = true;
                     storeTop<true>(eventSystem, listener);
                 }
                 break;
             }
             catch (...)
             {
-                skipField();
+                if (!operandsRead) {
+                    skipField();
+                }
                 m_Stack.GetTop().Clear();
                 throw;
             }
+        }
 
         case OP_STORE_FLOAT:
         {
